@@ -8,23 +8,27 @@ lines
   {"op":"seed","s":i,"sched":S}            {"op":"set_options","arg":null|{"dict":D}|{"list":[D]},"sched":S}
   {"op":"reset","sched":S}                 {"op":"step","acts":[i],"sched":S}
   {"op":"get_attr","name":s,"idx":I,"sched":S}       {"op":"set_attr","name":s,"v":i,"idx":I,"sched":S}
-  {"op":"env_method","name":s,"args":[i],"idx":I,"sched":S}
+  {"op":"env_method","name":s,"args":[i],"idx":I,"sched":S}      {"op":"is_wrapped","cls":s,"idx":I,"sched":S}
+  {"op":"step_async","acts":[i],"sched":S}   {"op":"step_wait","sched":S}   {"op":"close","sched":S}
       with S = [[worker ids]] (chunk k fires before the k-th parent action), I = null | k | [k], D = [[key,int]]
-  → {"subproc": OUT | "deadlock", "dummy": OUT, "pending": unanswered commands left in the pipes}
+  → {"subproc": OUT | "deadlock", "dummy": OUT, "pending": unanswered commands/replies left in the pipes,
+     "waiting": bool, "closed": bool}
   OUT = {"obs":[tag],"rews":[q],"dones":[bool],"infos":[{..}],"results":[v],"seeds":[i|null],"reset_infos":[{..}]}
-An operation outside the domain (`Op.valid`) is answered with {"error":"invalid-op"}.
+A call outside the protocol (`Call.next`: invalid indices, `get_attr` while a step is outstanding, anything but
+`close` after `close`, …) is answered with {"error":"invalid-op"}.
 -/
 import SB3Verif.Driver.Proto
 import SB3Verif.Model.Subproc
 
 open Lean SB3Verif.Proto SB3Verif.Subproc
 
-abbrev DSys := Sys Scripted.St Int Nat Rat
-abbrev DDummy := Dummy Scripted.St Nat
+abbrev DSub := Sub Scripted.St Int Nat Rat
+abbrev DDum := Dum Scripted.St Int Nat
 
 structure DState where
-  sys : DSys
-  dummy : DDummy
+  sub : DSub
+  dum : DDum
+  phase : Phase
 
 def optsJ (o : Opts) : Json := listJ (fun kv => Json.arr #[strJ kv.1, intJ kv.2]) o
 
@@ -84,7 +88,10 @@ def asEnv (j : Json) : Except String Scripted.St := do
   let script ← getList asScriptEntry j "script"
   let sa ← getInt j "some_attr"
   if script.isEmpty then throw "empty script"
-  return { envId := envId, script := script, someAttr := sa }
+  let wrapped := match j.getObjVal? "wrapped" with
+    | .ok (.bool b) => b
+    | _ => false
+  return { envId := envId, script := script, someAttr := sa, wrapped := wrapped }
 
 def parseOp (op : String) (j : Json) : Except String (Op Int Nat) := do
   match op with
@@ -96,26 +103,40 @@ def parseOp (op : String) (j : Json) : Except String (Op Int Nat) := do
   | "set_attr" => return .setAttr (← getStr j "name") (.int (← getInt j "v")) (← fld j "idx" >>= asIndices)
   | "env_method" =>
     return .envMethod (← getStr j "name") (← getList asInt j "args") (← fld j "idx" >>= asIndices)
+  | "is_wrapped" => return .isWrapped (← getStr j "cls") (← fld j "idx" >>= asIndices)
   | _ => throw s!"bad-op {op}"
+
+def parseCall (op : String) (j : Json) : Except String (Call Int Nat) := do
+  match op with
+  | "step_async" => return .stepAsync (← getList asInt j "acts")
+  | "step_wait" => return .stepWait
+  | "close" => return .close
+  | _ => return .op (← parseOp op j)
 
 def stepC02 (st : Option DState) (j : Json) : Except String (Option DState × Json) := do
   let op ← getStr j "op"
   if op == "new" then
     let envs ← getList asEnv j "envs"
-    return (some { sys := Sys.init envs, dummy := Dummy.init envs }, objJ [("ok", natJ envs.length)])
+    return (some { sub := Sub.init envs, dum := Dum.init envs, phase := .idle }, objJ [("ok", natJ envs.length)])
   match st with
   | none => throw "no-system"
   | some s =>
-    let o ← parseOp op j
+    let c ← parseCall op j
     let sch ← getList (asListOf asNat) j "sched"
-    if ¬ o.valid s.sys.procs.length then throw "invalid-op"
-    let d := Dummy.runOp Scripted.sem roundF32 s.dummy o
-    match Sys.runOp Scripted.sem s.sys sch o with
-    | none =>
-      return (some { s with dummy := d.1 }, objJ [("subproc", strJ "deadlock"), ("dummy", outJ d.2), ("pending", natJ 0)])
-    | some x =>
-      return (some { sys := x.1, dummy := d.1 },
-        objJ [("subproc", outJ x.2.2), ("dummy", outJ d.2), ("pending", natJ x.1.pendingWork)])
+    -- the protocol of the classes (Call.next): a call outside it is rejected, never answered with a default
+    match Call.next s.dum.d.envs.length s.phase c with
+    | none => throw "invalid-op"
+    | some ph =>
+      let d := Dum.run Scripted.sem roundF32 s.dum c
+      let flags (x : DSub) : List (String × Json) :=
+        [("waiting", boolJ x.waiting), ("closed", boolJ x.closed), ("pending", natJ x.sys.pendingWork)]
+      match Sub.run Scripted.sem s.sub sch c with
+      | none =>
+        return (some { s with dum := d.1, phase := ph },
+          objJ ([("subproc", strJ "deadlock"), ("dummy", outJ d.2)] ++ flags s.sub))
+      | some x =>
+        return (some { sub := x.1, dum := d.1, phase := ph },
+          objJ ([("subproc", outJ x.2.2), ("dummy", outJ d.2)] ++ flags x.1))
 
 /-- `{"op":"f32","q":q}` → `{"f32":roundF32 q}` (ties the model's float32 conversion to NumPy's) -/
 def stepAll (st : Option DState) (j : Json) : Except String (Option DState × Json) := do
